@@ -126,7 +126,7 @@ SCOPE = [
 # documented in-place APIs reached on purpose: (function holding the sink, parameter) -> reason
 EXEMPT_SINK_FUNCS = {
 }
-MAX_UNRESOLVED = 20
+MAX_UNRESOLVED = 45
 
 
 # rules that keep their verdict however the code is laid out (decided by term equality, effect analysis or dominance over
